@@ -10,11 +10,11 @@ import rxsci.container.csv as csv
 import rxsci.framing.line as line
 
 from rxsim.runner import Check, Outcome
-from rxsim.bytesim import gen_cuts, cut, drive, collect, SimDisk
+from rxsim.bytesim import gen_cuts, cut, drive, collect, SimDisk, dump_then_load_on_completion
 
 SEPS = [',', ';', '|', '\t', '::']
 ESCS = ['\\', '^']
-FLOATS = [0.0, -0.0, 1.5, -1.5, -0.5, 0.1, 2.655, 17.577, 1e-05, 1.5e-07, 1e+16, 1.7976931348623157e+308, 5e-324, -123456.789, 3.0, 100.0, 1e22]
+FLOATS = [0.0, -0.0, 2.5, 1.5, -1.5, -0.5, 0.1, 2.655, 17.577, 1e-05, 1.5e-07, 1e+16, 1.7976931348623157e+308, 5e-324, -123456.789, 3.0, 100.0, 1e22]
 
 
 def mk_str(rng, sep, esc):
@@ -48,7 +48,7 @@ class C18(Check):
     stubs = ['simulated disk / file objects handed in through the documented open_obj seam (short reads)', 'transport re-cutting the character stream',
              'final subscriber']
     assumptions = ['strings contain neither \\n nor \\r', 'the header line is written (header=True) and the matching schema, separator and escape char are used for loading']
-    probe_names = ('zwnbsp_in_str', 'path:mem', 'path:file', 'short_reads', 'file>64KiB', 'negative_float', 'str_ends_with_escape', 'sep_in_str', 'quote_in_str',
+    probe_names = ('read_back_inside_completion', 'str_spells_other_type', 'zwnbsp_in_str', 'path:mem', 'path:file', 'short_reads', 'file>64KiB', 'negative_float', 'str_ends_with_escape', 'sep_in_str', 'quote_in_str',
                    'multi_char_sep', 'blank_edges', 'empty_str', 'cut_inside_line')
     quick_cap = 150000
 
@@ -64,13 +64,16 @@ class C18(Check):
             row = []
             for t in cols:
                 if t == 'int':
-                    row.append(rng.choice([0, 1, -1, 7, -42, 10 ** 12, -10 ** 18, rng.randint(-999, 999)]))
+                    row.append(rng.choice([0, 1, -1, 7, 42, -42, 10 ** 12, -10 ** 18, rng.randint(-999, 999)]))
                 elif t == 'float':
                     row.append(rng.choice(FLOATS + [rng.uniform(-1000, 1000), round(rng.uniform(-10, 10), 3), float(rng.randint(-5, 5))]))
                 elif t == 'bool':
                     row.append(rng.random() < 0.5)
                 else:
                     s = mk_str(rng, sep, esc)
+                    if rng.random() < 0.12:
+                        # a string that spells a value of another column type (a cache keyed by the field text alone...)
+                        s = rng.choice(['42', '7', '-1', 'True', 'False', '2.5', '0.0', '-0.0', '1e-05', '', 'None', '0'])
                     if rng.random() < 0.1:
                         s = ' ' + s + ' '
                     row.append(s)
@@ -78,6 +81,7 @@ class C18(Check):
         path = rng.choice(['mem', 'file', 'file'])
         case = {'cols': cols, 'rows': rows, 'sep': sep, 'esc': esc, 'path': path, 'cutseed': rng.randrange(1 << 30)}
         if path == 'file':
+            case['ack'] = rng.random() < 0.4
             case['encoding'] = rng.choice([None, 'utf-8', 'utf-8'])
             case['reads'] = [] if big else [rng.choice([1, 2, 3, 5, 7, 16, 64, 1000]) for _ in range(rng.choice([0, 1, 2, 5]))]
         return case
@@ -135,11 +139,21 @@ class C18(Check):
         else:
             disk = SimDisk(short_reads=case.get('reads') or ())
             enc = case.get('encoding')
-            _, t = collect(rx.from_(rows).pipe(csv.dump_to_file('sim.csv', separator=sep, escapechar=esc, encoding=enc, open_obj=disk.open)))
+            if case.get('ack'):
+                t, got, term, still_open = dump_then_load_on_completion(
+                    rows, csv.dump_to_file('sim.csv', separator=sep, escapechar=esc, encoding=enc, open_obj=disk.open),
+                    lambda: csv.load_from_file('sim.csv', parser, encoding=enc, open_obj=disk.open), disk)
+                p['read_back_inside_completion'] += 1
+                if t is not None and t[0] == 'completed' and still_open:
+                    out.add('file-open-at-completion', 'csv', {'open_files': still_open})
+                    return out
+            else:
+                _, t = collect(rx.from_(rows).pipe(csv.dump_to_file('sim.csv', separator=sep, escapechar=esc, encoding=enc, open_obj=disk.open)))
             if t is None or t[0] != 'completed':
                 out.add('dump_to_file-failed', 'csv', {'terminal': repr(t), 'encoding': enc})
                 return out
-            got, term = collect(csv.load_from_file('sim.csv', parser, encoding=enc, open_obj=disk.open))
+            if not case.get('ack'):
+                got, term = collect(csv.load_from_file('sim.csv', parser, encoding=enc, open_obj=disk.open))
             size = len(disk.files.get('sim.csv', b''))
             out.ticks = size
             steps = disk.reads
@@ -180,6 +194,8 @@ class C18(Check):
             p['blank_edges'] += 1
         if any(s == '' for s in strs):
             p['empty_str'] += 1
+        if any(s in ('42', '7', '-1', 'True', 'False', '2.5', '0.0', '-0.0', '1e-05', 'None', '0') for s in strs):
+            p['str_spells_other_type'] += 1
         if any('\ufeff' in s for s in strs):
             p['zwnbsp_in_str'] += 1
         return out
